@@ -136,14 +136,14 @@ C11Scn == C11ScnOf({"absent", "present"}, C11Perms, {1000, 1, 2000000000, 0 - 2,
 (* =================================================================== C13 *)
 (* Universe = <<".", "a", "b", "c", "d", "d/a", "d/b", "d/e", "d/e/a">>: the same *)
 (* names at several depths, files and directories, every sort position       *)
-C13Src == With(With(With(With(With(With(With(With(With(With(EmptyFs, "_b", Reg(8, 18, 1000, 0, 420)), "ba", Reg(7, 17, 1000, 0, 420)), "a", Reg(1, 11, 1000, 0, 420)), "b", Reg(2, 12, 1000, 0, 420)), "c", Reg(3, 13, 1000, 0, 420)),
+C13Src == With(With(With(With(With(With(With(With(With(With(With(EmptyFs, "bl", Lnk("a")), "_b", Reg(8, 18, 1000, 0, 420)), "ba", Reg(7, 17, 1000, 0, 420)), "a", Reg(1, 11, 1000, 0, 420)), "b", Reg(2, 12, 1000, 0, 420)), "c", Reg(3, 13, 1000, 0, 420)),
           "d", Dir(493)), "d/a", Reg(4, 14, 1000, 0, 420)), "d/b", Reg(5, 15, 1000, 0, 420)), "d/e", Dir(493)), "d/e/a", Reg(6, 16, 1000, 0, 420))
 (* dir = TRUE: the rule is spelled with a trailing slash ("d/": directories named d); used only for names that *)
 (* are directories wherever they occur in this universe, so that it selects the same entries as the plain name *)
-C13RulePool == [inc : BOOLEAN, pat : {"a", "b", "d", "e", "_b"}, dir : {FALSE}] \cup [inc : BOOLEAN, pat : {"d", "e"}, dir : {TRUE}]
+C13RulePool == [inc : BOOLEAN, pat : {"a", "b", "d", "e", "_b", "bl"}, dir : {FALSE}] \cup [inc : BOOLEAN, pat : {"d", "e"}, dir : {TRUE}]
 CONSTANT MaxRules
 C13Rules == UNION {[1..k -> C13RulePool] : k \in 0..MaxRules}
-C13Scn == { E2E(C13Src, EmptyFs, OX(TRUE, FALSE, FALSE, TRUE, FALSE, FALSE, FALSE, FALSE, FALSE, FALSE), rs) : rs \in C13Rules }
+C13Scn == { E2E(C13Src, EmptyFs, OX(TRUE, TRUE, FALSE, TRUE, FALSE, FALSE, FALSE, FALSE, FALSE, FALSE), rs) : rs \in C13Rules }
 
 (* =================================================================== C14 *)
 (* Universe = <<".", "d", "d/f", "dev", "f", "k", "l", "z">>: every entry type, so *)
